@@ -887,6 +887,17 @@ def opC13Session : List String → Res
     | none => bad
   | _ => bad
 
+/-- the server's own background jobs: their follows count against the server-wide limit (`C13_full_holds`: never
+    more reads holding a slot than the limit) -/
+def opC13Jobs : List String → Res
+  | [limit, n, obs] => match limit.toNat?, n.toNat? with
+    | some limit, some n =>
+      let seen := ((obs.drop 4).toString.toNat?).getD 0
+      let within := obs.startsWith "max=" ∧ seen ≤ limit
+      { m := obs, s := if obs.startsWith "INCONCLUSIVE" then "-" else if within then obs else "LIMIT-EXCEEDED", t := if n > limit then "jobs-beyond-limit" else "jobs" }
+    | _, _ => bad
+  | _ => bad
+
 /-! C14 -/
 
 /-- script ops of the harness interpreted on the model; the client's connection index maps to
@@ -1434,6 +1445,27 @@ def opC18Reconnect : List String → Res
   | [_n] => { m := "listed=twice;unlisted=0", s := "listed=twice;unlisted=0", t := "reconnect" }
   | _ => bad
 
+/-- a consumer that stalls exactly at the end of the file, for longer than any timeout: all lines, exit status 0 -/
+def opC02EofStall : List String → Res
+  | [_lb, _extra, _hold, obs] =>
+    let want := match obs.splitOn "/" with
+      | [_, n] => s!"0;lines={n}/{n}"
+      | _ => "0;lines=?"
+    { m := want, s := want, t := "stall-at-eof" }
+  | _ => bad
+
+/-- the client's reporting path: the final outfile accounts for every partial result of every server -/
+def opC06Report : List String → Res
+  | [_s, _m, _r] => { m := "complete", s := "complete", t := "reporting" }
+  | _ => bad
+
+/-- the stdout logger paused and resumed while several sources print: every source's records 1..n, whole, in order -/
+def opC07Pause : List String → Res
+  | [ns, n, _c] =>
+    let want := joinWith "&" ((List.range (ns.toNat?.getD 0)).map fun i => s!"{i}=1..{n}")
+    { m := want, s := want, t := "pause-resume" }
+  | _ => bad
+
 def dispatch (line : String) : Res :=
   match (line.splitOn " ").filter (· ≠ "") with
   | "gen.stats" :: a => opGenStats a
@@ -1447,9 +1479,11 @@ def dispatch (line : String) : Res :=
   | "c02.session" :: a => opC02Session a
   | "c02.e2e" :: a => opC02E2E a
   | "c02.many" :: a => opC02Many a
+  | "c02.eofstall" :: a => opC02EofStall a
   | "c04.perc" :: a => opC04Perc a
   | "c04.tail" :: a => opC04Tail a
   | "c05.agg" :: a => opC05Agg a
+  | "c06.report" :: a => opC06Report a
   | "c06.fifo" :: a => opC06Fifo a
   | "c06.merge" :: a => opC06Merge a
   | "c06.queue" :: a => opC06Queue a
@@ -1457,6 +1491,7 @@ def dispatch (line : String) : Res :=
   | "c07.sched" :: a => opC07Sched a
   | "c07.pipe" :: a => opC07Pipe a
   | "c07.globid" :: a => opC07GlobID a
+  | "c07.pause" :: a => opC07Pause a
   | "c08.perm" :: a => opC08Perm a
   | "c08.cat" :: a => opC08Cat a
   | "c09.keys" :: a => opC09Keys a
@@ -1472,6 +1507,7 @@ def dispatch (line : String) : Res :=
   | "c13.script" :: a => opC13Script a
   | "c13.tail" :: a => opC13Tail a
   | "c13.session" :: a => opC13Session a
+  | "c13.jobs" :: a => opC13Jobs a
   | "c14.script" :: a => opC14Script a
   | "c15.write" :: a => opC15Write a
   | "c15.race" :: a => opC15Race a
